@@ -25,8 +25,9 @@ from typing import Any, Callable, Dict, List, Optional
 
 VERIF = os.path.dirname(os.path.dirname(os.path.abspath(__file__)))
 REPO = os.environ.get("VQ_REPO", "/repo")
-EVIDENCE_DIR = os.path.join(VERIF, "evidence")
-REPLAY_DIR = os.path.join(VERIF, "replays")
+_OUT = os.environ.get("VQ_OUT") or VERIF          # VQ_OUT: scratch output directory for runs against seeded changes
+EVIDENCE_DIR = os.path.join(_OUT, "evidence")
+REPLAY_DIR = os.path.join(_OUT, "replays")
 KNOWN_FINDINGS = os.path.join(VERIF, "known_findings.json")
 
 HOLDS, VIOLATED, INCONCLUSIVE = "holds", "violated", "inconclusive"
@@ -77,6 +78,27 @@ def load_known() -> List[Dict[str, Any]]:
 
 def known_active(prop: str) -> List[Dict[str, Any]]:
     return [k for k in load_known() if k.get("status") == "known" and prop in k.get("properties", [k.get("property")])]
+
+
+def known_lines_for(prop: str, witnesses: Dict[str, Callable[[], Optional[str]]]) -> List[str]:
+    """For every finding listed as status=known for this property in known_findings.json: re-run its
+    witness (a callable returning a description of the failure, or None if it no longer fails) and
+    produce the KNOWN-FINDING line.  Never writes the file."""
+    out = []
+    for k in load_known():
+        if k.get("status") != "known" or k.get("property") != prop:
+            continue
+        w = witnesses.get(k.get("key"))
+        if w is None:
+            out.append("KNOWN-FINDING: property={} {} (witness not re-run by this check)".format(prop, k.get("what", k.get("key"))))
+            continue
+        try:
+            obs = w()
+        except Exception as e:      # noqa
+            obs = "witness raised %r" % (e,)
+        if obs:
+            out.append("KNOWN-FINDING: property={} {} [{}]".format(prop, k.get("what", k.get("key")), obs))
+    return out
 
 
 def write_replay(prop: str, n: int, payload: Dict[str, Any]) -> str:
